@@ -436,3 +436,65 @@ impl Group for History {
         (0..evs.len()).map(|i| { let mut e = evs.clone(); e.remove(i); format!("{} {} {} {}", p[0], p[1], p[2], list(e)) }).collect()
     }
 }
+
+/// `comprash::UriKey` / `PathQuery` as the code builds them from a `Uri`: equality of the keys of two URIs, and what the
+/// accessors give back
+pub struct Keys;
+impl Group for Keys {
+    fn name(&self) -> &'static str {
+        "c03.key"
+    }
+    fn rule(&self) -> &'static str {
+        "UriKey::path_and_query(&uri) for EVERY pair of URIs over 10 paths (among them pairs whose path + query spell the same string: /item?7 and /item7, /qm?x=1 and /qmx=1, /a?b and /ab) x 8 queries (absent, empty, ...): whether the two keys are equal (==, and then their hashes), PathQuery::path(), query(), into_path() of the first; compared with the model's representation (`UriKey.ofUri`, both fields compared); oracle from the statement: the keys are equal exactly when the paths are equal and the queries are (absent = empty); non-trivial = the two URIs differ"
+    }
+    fn generate(&self, _ctx: &Ctx, _rng: &mut Rng) -> Vec<String> {
+        let paths = ["/", "/a", "/ab", "/a/b", "/item", "/item7", "/qm", "/qmx=1", "/a%3Fb", "/a/"];
+        let queries: [Option<&str>; 8] = [None, Some(""), Some("b"), Some("7"), Some("x=1"), Some("a=b&c"), Some("?x"), Some("/b")];
+        let show = |q: &Option<&str>| q.map(|q| hex(q.as_bytes())).unwrap_or("none".into());
+        let mut v = Vec::new();
+        for p1 in paths {
+            for q1 in &queries {
+                for p2 in paths {
+                    for q2 in &queries {
+                        v.push(format!("c03.key {} {} {} {}", hex(p1.as_bytes()), show(q1), hex(p2.as_bytes()), show(q2)));
+                    }
+                }
+            }
+        }
+        v
+    }
+    fn run_impl(&self, _ctx: &Ctx, line: &str) -> String {
+        use std::hash::{Hash, Hasher};
+        let p: Vec<&str> = line.split(' ').collect();
+        let uri = |ph: &str, qh: &str| -> Uri {
+            let mut s = String::from_utf8(unhex(ph).unwrap()).unwrap();
+            if qh != "none" { s.push('?'); s.push_str(&String::from_utf8(unhex(qh).unwrap()).unwrap()); }
+            s.parse().unwrap()
+        };
+        let (k1, k2) = (comprash::UriKey::path_and_query(&uri(p[1], p[2])), comprash::UriKey::path_and_query(&uri(p[3], p[4])));
+        let h = |k: &comprash::UriKey| { let mut s = std::collections::hash_map::DefaultHasher::new(); k.hash(&mut s); s.finish() };
+        let eq = k1 == k2;
+        if eq && h(&k1) != h(&k2) { return "equal keys with different hashes".into(); }
+        match k1 {
+            comprash::UriKey::PathQuery(pq) => format!("eq={} p={} q={} into={}", b01(eq), hex(pq.path().as_bytes()), pq.query().map(|q| hex(q.as_bytes())).unwrap_or("none".into()), hex(pq.clone().into_path().as_bytes())),
+            comprash::UriKey::Path(_) => "path-only key".into(),
+        }
+    }
+    fn oracle(&self, _ctx: &Ctx, line: &str, out: &str) -> Option<(String, String)> {
+        let p: Vec<&str> = line.split(' ').collect();
+        let norm = |q: &str| if q == "none" || q == "-" { String::new() } else { q.to_owned() };
+        let same = p[1] == p[3] && norm(p[2]) == norm(p[4]);
+        if !out.starts_with(&format!("eq={} ", b01(same))) {
+            let show = |ph: &str, qh: &str| format!("{}{}", String::from_utf8_lossy(&unhex(ph).unwrap_or_default()), if qh == "none" { String::new() } else { format!("?{}", String::from_utf8_lossy(&unhex(qh).unwrap_or_default())) });
+            return Some((format!("key:{line}"), format!("`{}` and `{}` are {} resources, but their cache keys say: {out}", show(p[1], p[2]), show(p[3], p[4]), if same { "the same" } else { "different" })));
+        }
+        None
+    }
+    fn nontrivial(&self, line: &str, _o: &str) -> bool {
+        let p: Vec<&str> = line.split(' ').collect();
+        p[1] != p[3] || p[2] != p[4]
+    }
+    fn classify(&self, _l: &str, o: &str) -> String {
+        o.split(' ').next().unwrap_or("").to_owned()
+    }
+}
